@@ -50,6 +50,15 @@ def shards(tier):
             out.append(dict(dev=dev, op="transfer", sgeo=sg, dgeo=sg, same=True, k=1, steps=3, partition_by="auto", comp=True))
             if tier == "thorough":
                 out.append(dict(dev=dev, op="transfer", sgeo=sg, dgeo=sg, same=True, k=2, steps=2, partition_by="auto", ncand=2))
+        # argument shapes of the quantifier: broadcast singletons (scalar id / one-element list / scalar volume), 2-D arrays; a trough declared via Labware(virtual_rows=)
+        for sg, dg in [("p2x2", "t3x2"), ("t3x2", "p2x2")]:
+            out.append(dict(dev=dev, op="transfer", sgeo=sg, dgeo=dg, k=2, steps=1, partition_by="auto", washes=[1], ncand=2, wl_max=common.BIG * 2,
+                            bcast=["src:scalar", "src:list1", "dst:scalar", "dst:list1", "vol:scalar", "vol:list1", "src:scalar+vol:scalar"]))
+        out.append(dict(dev=dev, op="transfer", sgeo="p2x2", dgeo="p2x2", k=4, steps=1, partition_by="auto", washes=[1], shape2d=True, wl_max=common.BIG * 2))
+        for sg, dg in [("lt3x2", "p2x2"), ("p2x2", "lt3x2")]:
+            out.append(dict(dev=dev, op="transfer", sgeo=sg, dgeo=dg, k=1, steps=2, partition_by="auto", washes=[1]))
+            out.append(dict(dev=dev, op="aspirate" if sg.startswith("lt") else "dispense", sgeo=sg, dgeo=dg, k=2, steps=1))
+        out.append(dict(dev=dev, op="distribute", sgeo="lt3x2", dgeo="p2x2", k=1, steps=1))
         # chained: a well that is first a destination and then a source within one call, with composition tracking
         out.append(dict(dev=dev, op="transfer", sgeo="p3x2", dgeo="p3x2", same=True, k=2, steps=1, partition_by="auto", washes=[1], cands=[[0, 1], [1, 2]], comp=True, wl_max=common.BIG * 2))
         # two operations in sequence on one worklist (the inductive argument is not the only support of the claim)
